@@ -78,40 +78,41 @@ def _call(payload):
     return func(arg)
 
 
-_POOL = None
+_POOLS = {}
 
 
-def get_pool():
-    global _POOL
-    if _POOL is None:
+def get_pool(hermetic=False):
+    """hermetic: every job runs in a brand-new interpreter (maxtasksperchild=1), so the history a job sees is exactly its own
+    and a failing job can be re-executed verbatim in a fresh process (cli --rejob)."""
+    if hermetic not in _POOLS:
         import atexit
 
         from . import snapshot
 
         ctx = mp.get_context("spawn")
-        _POOL = ctx.Pool(NPROC, initializer=_init, initargs=(snapshot.root(), list(sys.path)))
-        atexit.register(close_pool)
-    return _POOL
+        _POOLS[hermetic] = ctx.Pool(NPROC, initializer=_init, initargs=(snapshot.root(), list(sys.path)), maxtasksperchild=1 if hermetic else None)
+        if len(_POOLS) == 1:
+            atexit.register(close_pool)
+    return _POOLS[hermetic]
 
 
 def close_pool():
-    global _POOL
-    if _POOL is not None:
-        _POOL.terminate()
-        _POOL.join()
-        _POOL = None
+    for p in list(_POOLS.values()):
+        p.terminate()
+        p.join()
+    _POOLS.clear()
 
 
-def pmap(func, args, jobs=None, chunksize=1):
+def pmap(func, args, jobs=None, chunksize=1, hermetic=True):
     """Ordered map of a module-level function over args in the worker pool."""
     args = list(args)
     jobs = jobs or NPROC
-    if jobs <= 1 or len(args) <= 1:
+    if os.environ.get("NSLMC_INPROCESS"):
         with quiet():
             return [func(a) for a in args]
     if jobs < NPROC:
         # limited parallelism (fork-heavy jobs): keep at most `jobs` in flight
-        pl = get_pool()
+        pl = get_pool(hermetic)
         pending, results, it = {}, [None] * len(args), iter(enumerate(args))
         import time as _t
         done = False
@@ -127,7 +128,7 @@ def pmap(func, args, jobs=None, chunksize=1):
                 results[i] = pending.pop(i).get()
             _t.sleep(0.02)
         return results
-    return get_pool().map(_call, [(func, a) for a in args], chunksize=chunksize)
+    return get_pool(hermetic).map(_call, [(func, a) for a in args], chunksize=chunksize)
 
 
 def shards(n_items_hint=None, per_worker=4):
